@@ -180,6 +180,7 @@ def items(tier: str, seed: int):
             out.append({"kind": "shapes", "lang": lang, "shapes": block})
         out.append({"kind": "overrides", "lang": lang})
         out.append({"kind": "nested-helper", "lang": lang})
+        out.append({"kind": "enclosed", "lang": lang})
     out.append({"kind": "multi"})
     out.append({"kind": "mixed-languages"})
     return out
@@ -323,6 +324,27 @@ def run_item(item) -> Acc:
                 cfg = {"max_methods": p + dm, "max_loc": 500, "check_keywords": False}
                 vs, res = _lint(lang, text, cfg)
                 _judge(acc, lang, text, classes, cfg, vs, res, {"layout": "nested-helper-function-in-method"})
+    elif k == "enclosed":
+        # the class / struct+impl sits inside something: a module, a function body, a namespace
+        lang = item["lang"]
+        for p in (2, 3, 4):
+            cl = GEN[lang][0]("OrderLedger", p, 1, 0, 0, 0, ())
+            wraps = {
+                "py": {"in-function": (["def build():"], "    ", ["    return OrderLedger"]), "in-if": (["if FEATURE:"], "    ", [])},
+                "ts": {"in-namespace": (["namespace Billing {"], "  ", ["}"]), "in-function": (["function build() {"], "  ", ["  return OrderLedger;", "}"])},
+                "js": {"in-function": (["function build() {"], "  ", ["  return OrderLedger;", "}"]), "in-block": (["{"], "  ", ["}"])},
+                "rs": {"in-mod": (["mod billing {"], "    ", ["}"]), "in-test-mod": (["#[cfg(test)]", "mod tests {"], "    ", ["}"]), "in-fn": (["fn build() {"], "    ", ["}"])},
+            }[lang]
+            for wname, (head, pad, tail) in wraps.items():
+                lines = head + [pad + ln if ln else ln for ln in cl] + tail
+                text = "\n".join(lines) + "\n"
+                classes = [("OrderLedger", p, loc_of(cl, lang), len(head) + 1)]
+                for dm in (-1, 0, 1):
+                    if p + dm < 1:
+                        continue
+                    cfg = {"max_methods": p + dm, "max_loc": 500, "check_keywords": False}
+                    vs, res = _lint(lang, text, cfg)
+                    _judge(acc, lang, text, classes, cfg, vs, res, {"layout": "enclosed-" + wname})
     elif k == "mixed-languages":
         # one run over files of several languages with per-language override blocks: each file is
         # judged with the thresholds of ITS language, whatever the order the files are given in
